@@ -163,12 +163,7 @@ def r2_separators(rep, src, f, seps, atomic_lang, res):
                      detail={'witness': w}, where=f.where)
         else:
             rep.ok('C13.R2', f.site, what, 'L(atomic) ∩ L_search(%s) = ∅' % rxname)
-    # the reader applies the regexes in this nesting
-    txt = norm(fp.node)
-    if 'cls.__comma_sep_RE.split(raw.strip())' in txt and 'map(cls.__pipe_sep_RE.split' in txt:
-        rep.ok('C13.R2', fp.site, 'split nesting', 'comma level, then pipe level', nontrivial=False)
-    else:
-        rep.fail('C13.R2', fp.site, 'split nesting', 'the reader does not split on commas first and on pipes second', where=fp.where)
+    # (the nesting of the two splits -- commas first, pipes second -- is decided by C13.R3, which interprets the reader on "D1, D2 | D3")
     # arch list and restriction formula: separators written vs split regexes
     blank = src.regex(M, '__blank_sep_RE', cls='PkgRelation')
     rsep = src.regex(M, '__restriction_sep_RE', cls='PkgRelation')
